@@ -56,4 +56,12 @@ PROPS = {
         "level_note": "Trusted: Coq kernel; the hand-written model; slice::sort_by_key is a stable sort (modelled by insertion sort; uniqueness of the stable sort is proved); 64-bit usize; more than i32::MAX pairs cannot be materialised in the harness (that branch is covered by the theorem only).",
         "assumptions": ["slice::sort_by_key is a stable sort", "ToRoughTLV implementors honour rough_tlv_len = bytes written (proved for nested MessageWrapper values)", "usize is 64 bits"],
     },
+    "C17": {
+        "families": ["readn"],
+        "n": {"quick": {"readn": 3000}, "thorough": {"readn": 60000}},
+        "rule": "all reader scripts of length <= 4 (quick; a fifth of length 4) / <= 6 (thorough) over {Deliver 1, Deliver 2, Deliver 5, Interrupted, EOF, other error} x count in {0,1,2,3,7} x max_attempts in {1,2,3,10,usize::MAX}, rotating through ByteArena::read_n, Encoder/Decoder::read_n, encode_read, decode_read and through arena states (no cache, fresh chunk, 2 bytes left); plus random scripts up to 13 events with counts up to 40 and zero-byte deliveries; distinct = distinct case line; non-trivial = at least two reader calls",
+        "level_text": "Theorems C17_read_n / C17_succeeds_iff / C17_count_zero: for every reader script, count and attempt limit the faithful model of read_n_impl makes at most max calls, each asking for exactly count minus what was delivered so far, stops at the first end of file or non-interrupt error, returns the bytes delivered in order, succeeds iff something was delivered or the run ended on EOF (otherwise the last error), and for count 0 does not touch the reader; proved by induction over unbounded scripts. Tied to the code by exhaustive short scripts and random ones through ByteArena::read_n and the four codec entry points, in three arena states, debug and release; the harness additionally checks the frame clauses (earlier allocations intact, remaining() accounting, codec output equal to encode/decode of exactly the delivered bytes).",
+        "level_note": "Trusted: Coq kernel; the hand-written model of the retry loop; a reader is any script of {deliver k <= asked, Interrupted, EOF, error}; the arena frame and codec-state clauses are checked by the harness against a reference run rather than proved in this model (the arena itself is modelled under C03/C05).",
+        "assumptions": ["Read::read never reports more bytes than the buffer it was given"],
+    },
 }
